@@ -10,6 +10,14 @@
              (class DL / SL / QU below) says what every ring/list/queue must contain after each
              operation; the dumped links must represent exactly that (next and prev mutually
              consistent, tail = last node, recycled node not enqueued, values attached to addresses...)
+  accessors  both drivers also evaluate, after every line, the functions and macros that are not history
+             operations (a_que_fore_/back_, a_que_fore/back/at/num/siz, the A_QUE_* typed aliases, the
+             a_list_* / a_slist_* / a_que_* iteration macros in every variant, the *_entry macros, the alias
+             entry points a_list_ctor/dtor, a_slist_init/dtor, a_slist_link, a_que_new/die and an allocation
+             ledger): tokens w= (visited sequence of the foreach macros), e= (unchecked end accessors) and
+             acc= (ok | BAD:<function>:<got>:<want>, compared inside the C driver).  A BAD token, a w= / e=
+             token that contradicts the abstract state, or a primitive (link/loop/ctor/init/dtor) that
+             changes anything but its own fields is a property violation reported with key <kind>/<function>
   crashes    a sanitizer abort / crash of the implementation driver is a failing input of the history
              it happened in; the histories after it are run again by a fresh process (run_c_resilient)
              so that they are judged on their own output
@@ -54,7 +62,17 @@ META = {
             "Tie: the extracted models and the C compiled from the current tree (ASan+UBSan, counting a_alloc with fault "
             "schedule) execute the same generated histories (valid ones aimed at every case split, plus arbitrary-argument "
             "'wild' histories for the lists); after every operation the whole heap dump (lists) resp. result, num/siz/mem, "
-            "ring forwards and backwards, pool, payloads and allocator request trace (queue) must be identical.",
+            "ring forwards and backwards, pool, payloads and allocator request trace (queue) must be identical. "
+            "Accessors, alias entry points and iteration macros (coq/C05/AccDefs.v, AccProofs.v; theorems que_end_accessors, "
+            "que_end_accessors_empty, que_iteration, list_alias_entry_points, list_iteration, slist_alias_entry_points, "
+            "slist_link_writes_one_field, slist_iteration): after every line both drivers print what a_que_fore_/a_que_back_ "
+            "return on a non-empty queue (as the node whose block + sizeof(a_list) the pointer is) and what the foreach "
+            "macros visit, and the C driver compares inside itself (token acc=ok|BAD:<function>:..) a_que_fore/back/at/num/"
+            "siz, every A_QUE_* typed alias, all 8 a_list / 4 a_slist / 4 a_que iteration macros (also while the body removes "
+            "the visited node), the *_entry macros, and an allocation ledger (live blocks = num_+cur_, pool arrays, the "
+            "a_que_new structure released by a_que_die); containers are built through every construction entry point "
+            "(a_list_ctor/init/dtor/A_LIST_INIT, a_slist_ctor/init/dtor/A_SLIST_INIT, a_que_ctor/dtor and a_que_new/die), "
+            "every second queue operation goes through its alias macro.",
     "note": "Trusted: Coq kernel; extraction (ExtrOcamlBasic only) and the two hand-written drivers; the hand-written models "
             "coq/C05/*Defs.v are tied to the C by differential testing only, not by a verified translation; C semantics and "
             "compiler. Modelled, not verified: a_alloc as an oracle consuming one boolean per request (addresses are never "
@@ -77,6 +95,41 @@ class Pre(Exception):
 
 class Bad(Exception):
     """the implementation's output violates the property"""
+
+
+class BadFn(Bad):
+    """... and the violation is pinned on one accessor / macro (key of the report)"""
+
+    def __init__(self, fn, msg):
+        Bad.__init__(self, msg)
+        self.fn = fn
+
+
+def parse_seq(s):
+    """'[1,2]' -> [1, 2]; 'BROKEN' -> None; '?' entries -> -1"""
+    if s == "BROKEN":
+        return None
+    s = s.strip("[]")
+    return [int(x) if x != "?" else -1 for x in s.split(",")] if s else []
+
+
+def extras(line):
+    """the w= / acc= tokens of a canonical line"""
+    d = {}
+    for tok in line.split():
+        if tok.startswith("w="):
+            d["w"] = tok[2:]
+        elif tok.startswith("acc="):
+            d["acc"] = tok[4:]
+    return d
+
+
+def bad_token(line):
+    """(function, token) when the driver's own accessor comparison failed on this line"""
+    a = extras(line).get("acc", "ok")
+    if a.startswith("BAD:"):
+        return a[4:].split(":")[0], a
+    return None
 
 
 # ----------------------------------------------------------------------------------------------
@@ -132,7 +185,7 @@ class DL:
     def apply(self, op, a):
         t = op
         ch = self.ch
-        if op == "init":
+        if op in ("init", "ctor", "dtor"):
             c = self.single(a[0])
             c[0] = True
         elif op in ("add_next", "add_prev"):
@@ -231,8 +284,23 @@ class DL:
             raise Pre("operation outside the abstract machine")
         self.tags.append(t)
 
-    def check(self, heap):
-        """heap: {id: (next, prev)} as dumped by the implementation"""
+    def check(self, heap, w=None):
+        """heap: {id: (next, prev)} as dumped by the implementation; w: the w= token (what the
+        a_list_foreach_next / _prev macros visited from node c)"""
+        if w and w != "-":
+            c, rest = w.split(":", 1)
+            c = int(c)
+            fwd, bwd = [parse_seq(x) for x in rest.split("/")]
+            ch = self.find(c)
+            if ch[0]:
+                i = ch[1].index(c)
+                ring = ch[1][i:] + ch[1][:i]
+                if fwd != ring[1:]:
+                    raise BadFn("a_list_foreach_next", "a_list_foreach_next from node %d visited %s, the ring %s says %s"
+                                % (c, fwd, ring, ring[1:]))
+                if bwd != ring[1:][::-1]:
+                    raise BadFn("a_list_foreach_prev", "a_list_foreach_prev from node %d visited %s, the ring %s says %s"
+                                % (c, bwd, ring, ring[1:][::-1]))
         for closed, l in self.ch:
             k = len(l)
             for i in range(k if closed else k - 1):
@@ -247,6 +315,8 @@ class DL:
 def parse_l(line):
     heap = {}
     for tok in line.split()[1:]:
+        if "=" in tok:
+            continue          # w= / acc=
         k, v = tok.split(":")
         nx, pv = v.split(",")
         heap[int(k)] = (int(nx) if nx != "?" else None, int(pv) if pv != "?" else None)
@@ -270,6 +340,7 @@ def gen_dlist(rng, nops, n):
         try:
             if op == "init":
                 a = [rng.choice(singles)[1][0]]
+                op = rng.choice(["init", "ctor", "dtor"])      # three entry points, one body
             elif op in ("add_next", "add_prev"):
                 a = [rng.choice(rng.choice(closed)[1]), rng.choice(singles)[1][0]]
             elif op in ("add_", "add_node"):
@@ -328,7 +399,7 @@ def gen_dlist(rng, nops, n):
     return out, m.tags
 
 
-LARITY = {"init": 1, "link": 2, "loop": 2, "add_": 4, "add_node": 3, "add_next": 2, "add_prev": 2, "del_": 2,
+LARITY = {"init": 1, "ctor": 1, "dtor": 1, "link": 2, "loop": 2, "add_": 4, "add_node": 3, "add_next": 2, "add_prev": 2, "del_": 2,
           "del_node": 1, "del_next": 1, "del_prev": 1, "set_": 4, "set_node": 2, "mov_next": 2, "mov_prev": 2,
           "rot_next": 1, "rot_prev": 1, "swap_": 4, "swap_node": 2}
 
@@ -363,10 +434,19 @@ class SL:
 
     def apply(self, op, a):
         t = op
-        if op == "ctor":
+        if op in ("ctor", "init", "dtor"):
             if a[0] not in self.l:
                 raise Pre("not a list")
             self.l[a[0]] = []
+        elif op == "link":
+            # a bare a_slist_link has an abstract meaning only when it rewrites the link that is there
+            owner = [l for l, xs in self.l.items() if xs is not None and (a[0] == l or a[0] in xs)]
+            if len(owner) != 1:
+                raise Pre("head is on no list")
+            seq = [owner[0]] + self.l[owner[0]]
+            i = seq.index(a[0])
+            if i + 1 >= len(seq) or seq[i + 1] != a[1]:
+                raise Pre("not the successor")
         elif op in ("add", "add_head", "add_tail"):
             xs = self.lst(a[0])
             node = a[-1]
@@ -410,10 +490,13 @@ class SL:
             raise Pre("unknown op")
         self.tags.append(t)
 
-    def check(self, nxt, tail):
+    def check(self, nxt, tail, w=None):
+        ws = [parse_seq(x) for x in w.split("/")] if w else None
         for l, xs in self.l.items():
             if xs is None:
                 continue
+            if ws is not None and ws[l - 1] != xs:
+                raise BadFn("a_slist_foreach", "a_slist_foreach on list %d visited %s, the sequence is %s" % (l, ws[l - 1], xs))
             seq = [l] + xs
             for i, x in enumerate(seq):
                 want = seq[i + 1] if i + 1 < len(seq) else 0
@@ -426,6 +509,8 @@ class SL:
 def parse_s(line):
     nxt, tail = {}, {}
     for tok in line.split()[1:]:
+        if "=" in tok:
+            continue          # w= / acc=
         k, v = tok.split(":")
         k = int(k)
         if "," in v:
@@ -440,8 +525,9 @@ def parse_s(line):
 def gen_slist(rng, nops, n):
     m = SL(n)
     out = ["S %d" % n]
-    ops = ["ctor", "add", "add_head", "add_tail", "del", "del_head", "mov", "rot"]
-    w = [1, 6, 3, 3, 5, 3, 2, 4]
+    ops = ["ctor", "add", "add_head", "add_tail", "del", "del_head", "mov", "rot", "link"]
+    w = [1, 6, 3, 3, 5, 3, 2, 4, 2]
+    ctors = ["ctor", "init", "dtor"]          # three entry points, one body
     tries = 0
     while len(out) - 1 < nops and tries < nops * 40:
         tries += 1
@@ -449,9 +535,15 @@ def gen_slist(rng, nops, n):
         l = rng.choice([1, 2])
         try:
             if m.l[l] is None:
-                op, a = "ctor", [l]
-            elif op in ("ctor", "del_head", "rot"):
+                op, a = rng.choice(ctors), [l]
+            elif op == "ctor":
+                op, a = rng.choice(ctors), [l]
+            elif op in ("del_head", "rot"):
                 a = [l]
+            elif op == "link":
+                seq = [l] + m.lst(l)
+                i = rng.randrange(len(seq) - 1)
+                a = [seq[i], seq[i + 1]]
             elif op in ("add", "add_head", "add_tail"):
                 free = [x for x in range(3, n + 3) if x not in m.used()]
                 node = rng.choice(free)
@@ -475,11 +567,11 @@ def gen_slist(rng, nops, n):
 def gen_slist_wild(rng, nops, n):
     out = ["S %d" % n]
     for _ in range(nops):
-        op = rng.choice(["ctor", "add", "add_head", "add_tail", "del", "del_head", "mov", "rot"])
+        op = rng.choice(["ctor", "init", "dtor", "link", "add", "add_head", "add_tail", "del", "del_head", "mov", "rot"])
         l = rng.choice([1, 2])
         anyn = lambda: rng.randint(1, n + 2)
         node = lambda: rng.randint(3, n + 2)
-        a = {"ctor": [l], "add": [l, anyn(), node()], "add_head": [l, node()], "add_tail": [l, node()],
+        a = {"ctor": [l], "init": [l], "dtor": [l], "link": [anyn(), anyn()], "add": [l, anyn(), node()], "add_head": [l, node()], "add_tail": [l, node()],
              "del": [l, anyn()], "del_head": [l], "mov": [l, rng.choice([1, 2]), anyn()], "rot": [l]}[op]
         out.append(op + " " + " ".join(map(str, a)))
     return out
@@ -732,6 +824,13 @@ class QU:
                 raise Bad("queue %d: num %d, abstract length %d" % (s, d["n"], len(xs)))
             if d["z"] != self.siz[s]:
                 raise Bad("queue %d: element size %d, expected %d" % (s, d["z"], self.siz[s]))
+            if "e" in d:
+                want = (str(xs[0]), str(xs[-1])) if xs else ("-", "-")
+                for k, fn in ((0, "a_que_fore_"), (1, "a_que_back_")):
+                    if d["e"][k] != want[k]:
+                        raise BadFn(fn, "queue %d: %s returned element %s, the sequence %s says %s (returned pointer must be "
+                                        "the node's block + sizeof(a_list); '-' = not called on an empty queue)"
+                                    % (s, fn, d["e"][k], xs, want[k]))
             if len(set(d["p"])) != len(d["p"]):
                 raise Bad("queue %d: pool holds a node twice %s" % (s, d["p"]))
         allp = st[0]["p"] + st[1]["p"]
@@ -772,7 +871,7 @@ def parse_q(line):
         parts.append(cur)
         for p in parts:
             k, v = p.split("=")
-            d[k] = lst(v) if k in "fbp" else int(v)
+            d[k] = lst(v) if k in "fbp" else tuple(v.split("/")) if k == "e" else int(v)
         st[i] = d
     v = toks[3][2:].strip("[]")
     st["v"] = {int(a.split(":")[0]): int(a.split(":")[1]) for a in v.split(",")} if v else {}
@@ -921,9 +1020,54 @@ def run_bin(binp, text, flush=False, timeout=900):
     return rc, out.splitlines(), err
 
 
-def oracle_history(hist, c_lines):
+PRIM_FN = {("L", "link"): "a_list_link", ("L", "loop"): "a_list_loop", ("L", "init"): "a_list_init",
+           ("L", "ctor"): "a_list_ctor", ("L", "dtor"): "a_list_dtor", ("S", "link"): "a_slist_link",
+           ("S", "ctor"): "a_slist_ctor", ("S", "init"): "a_slist_init", ("S", "dtor"): "a_slist_dtor"}
+
+
+def prim_check(kind, prev, t, out):
+    """The primitives (link, loop, the ctor/init/dtor entry points) are specified by the fields they
+    write: the dump after the call must be the dump before it with exactly those fields changed.  Needs
+    no abstract state, so it also judges the arbitrary-argument histories.  Returns None or (message,
+    function)."""
+    fn = PRIM_FN.get((kind, t[0]))
+    if fn is None or not prev.startswith(("L", "S", "ok")) or not out.startswith("ok"):
+        return None
+    try:
+        a = [int(x) for x in t[1:]]
+        if kind == "L":
+            want = dict(parse_l(prev))
+            got = parse_l(out)
+            if t[0] == "link":
+                want[a[0]] = (a[1], want[a[0]][1])
+                want[a[1]] = (want[a[1]][0], a[0])
+            elif t[0] == "loop":
+                want[a[0]] = (want[a[0]][0], a[1])
+                want[a[1]] = (a[0], want[a[1]][1])
+            else:
+                want[a[0]] = (a[0], a[0])
+        else:
+            nxt, tail = parse_s(prev)
+            want = (dict(nxt), dict(tail))
+            got = parse_s(out)
+            if t[0] == "link":
+                want[0][a[0]] = a[1]
+            else:
+                want[0][a[0]] = 0
+                want[1][a[0]] = a[0]
+        if got != want:
+            return ("%s(%s): the fields after the call are %s, the fields before it with the write(s) of %s applied are %s"
+                    % (fn, ",".join(t[1:]), got, fn, want), fn)
+    except (ValueError, IndexError, KeyError):
+        return None
+    return None
+
+
+def oracle_history(hist, c_lines, abstract=True):
     """Evaluate the property on the implementation's output for one history (its lines and the
-    implementation's output lines).  Returns None or (op index, message)."""
+    implementation's output lines).  Returns None or (op index, message, function or None).
+    abstract=False (arbitrary-argument histories, no abstract meaning): only the checks that need no
+    abstract state - the driver's own accessor verdict (acc=BAD), the primitives' frame, missing output."""
     kind = hist[0].split()[0]
     try:
         if kind == "L":
@@ -934,36 +1078,58 @@ def oracle_history(hist, c_lines):
             m = QU(False)
     except (ValueError, IndexError):
         return None
-    for i in range(1, len(hist)):
+    live = abstract           # the abstract machine still follows the history
+    for i in range(0, len(hist)):
         if i >= len(c_lines):
-            return (i, "no output for this operation (the implementation stopped: crash, sanitizer report or endless loop)")
+            return (i, "no output for this operation (the implementation stopped: crash, sanitizer report or endless loop)", None)
         t = hist[i].split()
         out = c_lines[i]
+        b = bad_token(out)
+        if b:
+            return (i, "%s: accessor / macro / ledger comparison inside the driver failed: %s" % b, b[0])
+        if i > 0:
+            r = prim_check(kind, c_lines[i - 1], t, out)
+            if r:
+                return (i, r[0], r[1])
+        if not live:
+            if not out.startswith(("ok", "r=", "L", "S", "Q")):
+                return None   # fault / dead: nothing more is printed for this history
+            continue
         try:
-            if kind == "L":
+            if i == 0:
+                # the freshly constructed containers (every construction entry point is used here)
+                if kind == "L":
+                    m.check(parse_l(out), extras(out).get("w"))
+                elif kind == "S":
+                    m.check(*parse_s(out), w=extras(out).get("w"))
+                else:
+                    m.check(parse_q("r=0" + out[1:])[1])
+            elif kind == "L":
                 m.apply(t[0], [int(x) for x in t[1:]])
                 if not out.startswith("ok"):
-                    return (i, "implementation reports '%s'" % out)
-                m.check(parse_l(out))
+                    return (i, "implementation reports '%s'" % out, None)
+                m.check(parse_l(out), extras(out).get("w"))
             elif kind == "S":
                 m.apply(t[0], [int(x) for x in t[1:]])
                 if not out.startswith("ok"):
-                    return (i, "implementation reports '%s'" % out)
-                m.check(*parse_s(out))
+                    return (i, "implementation reports '%s'" % out, None)
+                m.check(*parse_s(out), w=extras(out).get("w"))
             else:
                 if not out.startswith("r="):
-                    return (i, "implementation reports '%s' (ring broken before this operation)" % out) \
+                    return (i, "implementation reports '%s' (ring broken before this operation)" % out, None) \
                         if out == "dead" else None
                 res, st = parse_q(out)
                 failed = any(x.endswith(":0") for x in st["t"])
                 m.step(t[0], t[1:], res, failed)
                 m.check(st)
         except Pre:
-            return None       # outside the documented preconditions: the property says nothing
+            live = False      # outside the documented preconditions: the abstract property says nothing any more
+        except BadFn as e:
+            return (i, str(e), e.fn)
         except Bad as e:
-            return (i, str(e))
+            return (i, str(e), None)
         except (ValueError, IndexError, KeyError, TypeError) as e:
-            return (i, "unreadable output '%s' (%s)" % (out[:120], e))
+            return (i, "unreadable output '%s' (%s)" % (out[:120], e), None)
     return None
 
 
@@ -1046,14 +1212,15 @@ def check_histories(ctx, cbin, mbin, hists, label, oracle=True, stats=None):
                 d = vlib.first_diff(c_l, m_l)
                 first_diff = pos + (d if d is not None else 0)
         pos += len(h)
-        if oracle and (differs or stats is None or stats.get("oracle_all", True)):
-            r = oracle_history(h, c_l)
+        r = None
+        if differs or stats is None or stats.get("oracle_all", True):
+            r = oracle_history(h, c_l, abstract=oracle)
             if stats is not None:
-                stats["oracle_ops"] = stats.get("oracle_ops", 0) + len(h) - 1
-            if r:
-                fails.append((h, r[0], r[1], c_l, m_l))
+                stats["oracle_ops" if oracle else "token_ops"] = stats.get("oracle_ops" if oracle else "token_ops", 0) + len(h) - 1
+        if r:
+            fails.append((h, r[0], r[1], c_l, m_l, r[2], oracle))
         elif differs and not oracle:
-            fails.append((h, vlib.first_diff(c_l, m_l), None, c_l, m_l))
+            fails.append((h, vlib.first_diff(c_l, m_l), None, c_l, m_l, None, oracle))
     if n_diff_h or crashes:
         what = "correspondence %s: implementation and model differ in %d of %d histories (first at line %s)" % (
             label, n_diff_h, len(hists), first_diff)
@@ -1066,32 +1233,63 @@ def check_histories(ctx, cbin, mbin, hists, label, oracle=True, stats=None):
     return fails, (c_flat, m_out)
 
 
-def shrink(ctx, cbin, hist, idx):
+def shrink(ctx, cbin, hist, idx, abstract=True):
     """smallest prefix-closed sub-history on which the oracle still fails on the implementation"""
     head, ops = hist[0], hist[1:idx + 1]
 
     def fails(cand):
         h = [head] + cand
         rc, out, err = run_bin(cbin, "\n".join(h) + "\n", flush=True, timeout=20)
-        return oracle_history(h, out) is not None
+        return oracle_history(h, out, abstract) is not None
     if not fails(ops):
         return hist[:idx + 1]
     ops = vlib.ddmin(ops, fails, max_tests=250)
     return [head] + ops
 
 
-def report_fail(ctx, cbin, h, idx, msg, c_l, m_l, label):
-    small = shrink(ctx, cbin, h, idx)
+# the C driver sends every second queue operation (odd line number in its history) through the typed alias macro
+QALIAS = {"push_fore": "A_QUE_PUSH_FORE", "push_back": "A_QUE_PUSH_BACK", "pull_fore": "A_QUE_PULL_FORE",
+          "pull_back": "A_QUE_PULL_BACK", "insert": "A_QUE_INSERT", "remove": "A_QUE_REMOVE", "at": "A_QUE_AT",
+          "fore": "A_QUE_FORE", "back": "A_QUE_BACK", "push_sort": "A_QUE_PUSH_SORT"}
+
+
+def entry_point(i, op):
+    return QALIAS[op] if (i & 1) and op in QALIAS else "a_que_" + op
+
+
+def blame_alias(cbin, small, r, abstract):
+    """A queue operation failed.  Run the same history with one read-only operation put in front of the
+    failing one: that flips the entry point (function <-> alias macro) the driver uses for it.  When the
+    failure goes away the entry point is to blame, not the operation: return its name."""
+    k = r[0]
+    if small[0].split()[0] != "Q" or r[2] or not (0 < k < len(small)):
+        return None, ""
+    op = small[k].split()[0]
+    if op not in QALIAS:
+        return None, ""
+    via = entry_point(k, op)
+    shifted = small[:k] + ["fore 0"] + small[k:]
+    rc, out, err = run_bin(cbin, "\n".join(shifted) + "\n", flush=True, timeout=20)
+    r2 = oracle_history(shifted, out, abstract)
+    note = " [entry point used: %s]" % via
+    if r2 is None:
+        return via, note + " [does not fail through %s]" % entry_point(k + 1, op)
+    return None, note
+
+
+def report_fail(ctx, cbin, h, idx, msg, c_l, m_l, label, fn=None, abstract=True):
+    small = shrink(ctx, cbin, h, idx, abstract)
     rc, out, err = run_bin(cbin, "\n".join(small) + "\n", flush=True, timeout=20)
-    r = oracle_history(small, out)
+    r = oracle_history(small, out, abstract)
     if r is None:
-        small, r, out = h[:idx + 1], (idx, msg), c_l[:idx + 1]
+        small, r, out = h[:idx + 1], (idx, msg, fn), c_l[:idx + 1]
     kind = {"L": "a_list", "S": "a_slist", "Q": "a_que"}[small[0].split()[0]]
     opn = small[min(r[0], len(small) - 1)].split()[0]
-    key = "%s/%s" % (kind, opn)
-    return ctx.report(key=key, what="%s: after '%s': %s" % (key, small[min(r[0], len(small) - 1)], r[1]),
+    via, note = blame_alias(cbin, small, r, abstract)
+    key = "%s/%s" % (kind, r[2] or via or opn)  # an accessor / macro / primitive / alias failure is keyed by its function
+    return ctx.report(key=key, what="%s: after '%s': %s%s" % (key, small[min(r[0], len(small) - 1)], r[1], note),
                       replay={"kind": label, "history": small, "failing_op": r[0], "observed": out[-3:],
-                              "message": r[1], "sanitizer": " ".join(err.split())[:600],
+                              "abstract": abstract, "message": r[1], "sanitizer": " ".join(err.split())[:600],
                               "how": "feed 'history' (one line each) to build/C05/drv built from the tree; "
                                      "python3 tools/vcheck.py C05 --replay <this file>"})
 
@@ -1121,10 +1319,11 @@ def exhaustive_small(kind):
         for k in range(4):
             base = ["S 4"] + ["add_tail 1 %d" % (3 + i) for i in range(k)]
             nodes = [3 + i for i in range(k)]
-            for op in (["rot 1", "del_head 1", "ctor 1", "add_head 1 6", "add_tail 1 6", "mov 1 2 2"]
+            for op in (["rot 1", "del_head 1", "ctor 1", "init 1", "dtor 1", "add_head 1 6", "add_tail 1 6", "mov 1 2 2"]
+                       + ["link %d %d" % (p, q_) for p, q_ in zip([1] + nodes, nodes)]
                        + ["del 1 %d" % p for p in [1] + nodes] + ["add 1 %d 6" % p for p in [1] + nodes]):
                 for op2 in ["rot 1", "add_tail 1 5", "del_head 1", "mov 2 1 1"]:
-                    if op.startswith("mov 1") or op.startswith("ctor"):
+                    if op.startswith(("mov 1", "ctor", "init", "dtor")):
                         hs.append(base + [op, "ctor 1", "add_tail 1 5", "rot 1"])
                     else:
                         hs.append(base + [op, op2])
@@ -1229,15 +1428,15 @@ def run(ctx):
 
     # ---- failures: shrink and report (one per key)
     seen_keys = set()
-    for h, idx, msg, c_l, m_l, label in fails:
+    for h, idx, msg, c_l, m_l, fn, abstract, label in fails:
         if msg is None:
             continue     # wild history: a difference without an abstract meaning; the tie is already recorded as broken
         kind = h[0].split()[0]
-        k = (kind, h[idx].split()[0] if idx < len(h) else "?")
+        k = (kind, fn or (h[idx].split()[0] if idx < len(h) else "?"))
         if k in seen_keys or len(seen_keys) >= 6:
             continue
         seen_keys.add(k)
-        report_fail(ctx, cbin, h, idx, msg, c_l, m_l, label)
+        report_fail(ctx, cbin, h, idx, msg, c_l, m_l, label, fn, abstract)
     if ctx.broken_ties and not any(f[2] for f in fails):
         # the correspondence broke but the property holds on everything examined: try the wild
         # differences once more through fresh valid histories around the same operations
@@ -1254,6 +1453,7 @@ def run(ctx):
     ctx.cov["situations_hit"] = dict(sorted(tags.items()))
     ctx.cov["situations_not_reached"] = sorted(t for t in want if t not in tags)
     ctx.cov["oracle_operations_checked"] = stats.get("oracle_ops", 0)
+    ctx.cov["accessor_token_only_operations_checked"] = stats.get("token_ops", 0)
     ctx.cov["seconds"] = {"model": round(stats.get("t_model", 0), 1), "implementation": round(stats.get("t_c", 0), 1)}
     ctx.cov["trusted_base"].extend([
         "extraction with ExtrOcamlBasic only; hand-written drivers harness/C05/mdrv.ml and harness/C05/drv.c",
@@ -1277,6 +1477,7 @@ que:pull_back:last que:reset
 slist:rot:len0 slist:rot:len1 slist:rot:len2+ slist:add:empty slist:add:last slist:add:inner slist:add_head:empty
 slist:add_tail:empty slist:add_tail:last slist:del:none slist:del:last slist:del:inner slist:del_head:none
 slist:del_head:last slist:del_head:inner slist:mov:empty-src slist:mov:at-last slist:mov:at-inner slist:ctor
+slist:init slist:dtor slist:link list:ctor list:dtor
 list:init list:add_next:ring1 list:add_next:ring3+ list:add_prev:ring1 list:add_prev:ring3+ list:add_:ring+ring
 list:add_:ring+open list:add_:open+ring list:add_:open+open list:add_node:ring+ring list:add_node:open+ring
 list:del_:whole list:del_:sec1 list:del_:sec3+ list:del_node:whole list:del_node:sec1 list:del_next:whole
@@ -1292,7 +1493,7 @@ def replay(ctx, path):
     hist = obj["replay"]["history"]
     cbin = ctx.cc("drv", [H / "drv.c"], repo_srcs=["que.c", "a.c"], mode="asan")
     rc, out, err = run_bin(cbin, "\n".join(hist) + "\n", flush=True, timeout=60)
-    r = oracle_history(hist, out)
+    r = oracle_history(hist, out, obj["replay"].get("abstract", True))
     for a, b in zip(hist, out):
         print("%-40s -> %s" % (a, b))
     if r:
